@@ -1240,6 +1240,7 @@ pub fn explore(run: &Run, h: &Harness, xc: &ExploreCfg, tag: &str) -> ExploreSta
   let mut pruned: u64 = 0;
   crate::crashguard::set_case(crate::crashguard::head_of(&json!({"engine": "sched", "tag": tag, "harness": h, "hb": xc.hb, "drain": xc.drain})));
   let mut first_trace: Option<Vec<String>> = None;
+  let mut viol_execs = 0u32;
   while let Some(p) = stack.pop() {
     let idx: Vec<usize> = p.iter().map(|x| *x as usize).collect();
     crate::crashguard::set_idx(&idx);
@@ -1320,6 +1321,15 @@ pub fn explore(run: &Run, h: &Harness, xc: &ExploreCfg, tag: &str) -> ExploreSta
     if st.execs >= xc.max_execs {
       st.capped = true;
       break;
+    }
+    // a harness that keeps failing is abandoned: more schedules of it add nothing to the verdict, and failing
+    // executions (aborted by unwinding, or run up to the event cap) are far more expensive than passing ones
+    if out.cap_hit || !out.viol.is_empty() {
+      viol_execs += 1;
+      if viol_execs >= 24 {
+        st.capped = true;
+        break;
+      }
     }
     if run.stopped() {
       break;
